@@ -262,6 +262,14 @@ func newGen(s *rspec.Spec) *xgen.Generator {
 			// one call per adjustment with all its names: a real injector resolves them together (shared vendor
 			// edits once, all or nothing)
 			sp.Annotations["verif.cdi"] += "|"
+			// like a real CDI spec, the injection adds a mount of its own (once)
+			has := false
+			for _, m := range sp.Mounts {
+				has = has || m.Destination == "/verif-cdi"
+			}
+			if !has && len(names) > 0 {
+				sp.Mounts = append(sp.Mounts, rspec.Mount{Destination: "/verif-cdi", Type: "tmpfs", Source: "cdi"})
+			}
 			return nil
 		}),
 	)
@@ -322,6 +330,9 @@ func viewOfSpec(s *rspec.Spec) *CView {
 		}
 	}
 	for _, m := range api.FromOCIMounts(s.Mounts) {
+		if m.Destination == "/verif-cdi" {
+			continue // the harness injector's own mount: its position is C13's business only
+		}
 		if _, ok := v.Mounts[m.Destination]; ok {
 			v.MntDup = append(v.MntDup, m.Destination)
 		}
@@ -595,6 +606,24 @@ func (mc *mergeChecker) checkC03(c *MCase, exp *Expect, obs *mObs, sample func()
 		bad = true
 		r.Violate("C03/combined-differs/"+fam,
 			fmt.Sprintf("applying the combined adjustment differs from applying each plugin's adjustment in turn (want = sequential): %s", d), c)
+	}
+	// the mounts come in the same order, too (they are applied in order)
+	{
+		var oa, ob []string
+		for _, m := range A.Mounts {
+			if !strings.HasPrefix(m.Destination, "/verif-cdi") {
+				oa = append(oa, m.Destination)
+			}
+		}
+		for _, m := range B.Mounts {
+			if !strings.HasPrefix(m.Destination, "/verif-cdi") {
+				ob = append(ob, m.Destination)
+			}
+		}
+		if strings.Join(oa, "|") != strings.Join(ob, "|") && len(oa) == len(ob) {
+			bad = true
+			r.Violate("C03/combined-differs/mount-order", fmt.Sprintf("applying the combined adjustment leaves the mounts in another order than applying each plugin's adjustment in turn: combined %v, in turn %v", oa, ob), c)
+		}
 	}
 	// "in turn" by the reference semantics as well: what the combined adjustment makes of the original equals
 	// the model container after all plugins, for the keyed families (a change common to both generator runs
